@@ -43,6 +43,8 @@ def run(ctx):
     axes(ctx)
     gradient(ctx)
     dirdiff(ctx)
+    from . import history
+    history.run_cache_scenarios(rep, ctx.repo, 'Jacobian', 2)
     rep.notes['trusted_base'] = ['python ast', 'ndverif abstract interpreter, stencil and data-abstract domains']
 
 
